@@ -5,7 +5,7 @@ import subprocess
 import sys
 import time
 
-ROOT = "/verif"
+ROOT = os.path.dirname(os.path.dirname(os.path.abspath(__file__)))
 tier = "thorough" if "--thorough" in sys.argv else "quick"
 seeds = [int(a) for a in sys.argv[1:] if a.isdigit()] or [1, 2, 3]
 props = [a for a in sys.argv[1:] if a.startswith("C")] or ["C%02d" % i for i in range(1, 19)]
